@@ -587,6 +587,17 @@ def gen_case(rng, prop, max_params=4, max_watchers=5, faults=False, size=8):
                 bodies.append(nbody)
         assert not any('other' in json.dumps(bodies[j]) for j in used2 if j < len(bodies))
         extra = {'others': others, 'watchers2': watchers2}
+    # registrations that share a callback are equal namedtuples and `unwatch` removes the first equal one, which the
+    # id-based model does not track: no `unwatch` may name one of them - checked once more at the end, because a
+    # twin may have been made after the `unwatch` statement was generated while running before it
+    def no_shared_unwatch(stmts):
+        for st in stmts:
+            if st['s'] == 'unwatch' and st['id'] in state['shared']:
+                st['id'] = state['next_wid'] + 7
+            if 'body' in st:
+                no_shared_unwatch(st['body'])
+    for l in [program] + bodies + extra.get('others', []):
+        no_shared_unwatch(l)
     return {**extra, 'prop': prop, 'level': level, 'shared': shared, 'inherit': inherit, 'events': events, 'bounds': bounds, 'init': init, 'watchers': watchers,
             'bodies': bodies, 'program': program}
 
